@@ -31,7 +31,7 @@ ASSUMPTIONS = ["the solver returns an optimum of the problem it is given", "cobr
 
 from ..framemodel import Ser as _Ser, Index as _Index
 
-NATIVE = (_Ser, _Index, Lin, Var, Cons, Obj, Problem, Container, SolverStub, RxnLP, ReactionList, SolutionLP, ModelLP, Formulation)
+NATIVE = (_Ser, _Index, Lin, Var, Cons, Obj, Problem, Container, SolverStub, RxnLP, ReactionList, SolutionLP, ModelLP, Formulation)  # + _MadeSolution, appended below
 FOLLOW = [
     "cobra.flux_analysis.parsimonious.pfba",
     "cobra.flux_analysis.parsimonious.add_pfba",
@@ -66,11 +66,25 @@ def _remove_cons_vars_from_problem(it, ev, c, args, kwargs):
     args[0].remove_cons_vars(args[1])
 
 
+class _MadeSolution:
+    """A Solution the analysed code builds itself (not the result of a solve)."""
+
+    def __init__(self, *a, **kw):
+        for name, v in zip(("objective_value", "status", "fluxes", "reduced_costs", "shadow_prices"), a):
+            kw.setdefault(name, v)
+        self.objective_value, self.status, self.fluxes = kw.get("objective_value"), kw.get("status"), kw.get("fluxes")
+
+
 STUBS = {
+    "cobra.core.solution.Solution": lambda it, ev, c, a, k: _MadeSolution(*a, **k),
+    "cobra.core.Solution": lambda it, ev, c, a, k: _MadeSolution(*a, **k),
     "cobra.core.solution.get_solution": _get_solution,
     "cobra.util.solver.add_cons_vars_to_problem": _add_cons_vars_to_problem,
     "cobra.util.solver.remove_cons_vars_from_problem": _remove_cons_vars_from_problem,
 }
+
+
+NATIVE = NATIVE + (_MadeSolution,)
 
 
 def _model(direction="max", solves: int = 4):
@@ -249,8 +263,11 @@ def _reference(model: ModelLP) -> SolutionLP:
     return SolutionLP(Formulation(model), list(model.reactions), 4.1875, fluxes)
 
 
-def _secondary(ctx, name: str, entry, reference_given: bool, kwargs: Dict[str, Any]):
+def _secondary(ctx, name: str, entry, reference_given: bool, kwargs: Dict[str, Any], knocked: Optional[str] = None):
     model = _model("max")
+    if knocked:
+        r = model.reactions.get_by_id(knocked)
+        r.lower_bound, r.upper_bound = 0.0, 0.0
     it = _interp(ctx)
     kw = dict(kwargs)
     ref = _reference(model) if reference_given else None
@@ -302,14 +319,25 @@ def check_moma(ctx) -> None:
     am = prog.func("cobra.flux_analysis.moma", "add_moma")
     problems: Dict[str, str] = {}
     n = 0
-    for given in (True, False):
-        what = f"moma(linear=True, solution={'given' if given else 'None'})"
+    for given, knocked in ((True, None), (False, None), (True, "R_a"), (True, "R_b"), (True, "R_c")):
+        # `knocked`: the usual use - a reaction of the model is switched off, the reference is the wild type's
+        # (R_a runs backwards in the reference, R_b forwards, R_c carries nothing)
+        what = f"moma(linear=True, solution={'given' if given else 'None'})" + (f" on a model with {knocked} knocked out" if knocked else "")
         try:
-            model, it, ref, sol = _run(what, lambda: _secondary(ctx, "moma", entry, given, {"linear": True}))
+            model, it, ref, sol = _run(what, lambda: _secondary(ctx, "moma", entry, given, {"linear": True}, knocked))
         except EvalRaise as exc:
             problems.setdefault("raise", f"{what} raises {exc.exc_type}")
             continue
         n += 1
+        if isinstance(sol, _MadeSolution) and ref is not None and isinstance(sol.fluxes, _Ser):
+            # the reference handed back without a solve: right exactly when it is attainable in the model as it is
+            # (then nothing is closer to it) - every flux of it within the bounds of its reaction
+            out_of_bounds = [(r.id, ref.fluxes[r.id]) for r in model.reactions if not (r.lower_bound <= ref.fluxes[r.id] <= r.upper_bound)]
+            same = all(sol.fluxes[r.id] == ref.fluxes[r.id] for r in model.reactions)
+            if out_of_bounds or not same:
+                rid, v = (out_of_bounds or [("?", None)])[0]
+                problems.setdefault("solution", f"{what}: the reference is handed back as the result without solving anything, although " + (f"{rid} is confined to {model.reactions.get_by_id(rid).bounds} and carries {v:g} in it: the result violates the bounds and its distance 0 is not attainable" if out_of_bounds else "the fluxes differ from the reference"))
+            continue
         if not isinstance(sol, SolutionLP) or sol.formulation is not model.solves[-1][0]:
             problems.setdefault("solution", f"{what} does not return the solution of the last solve")
             continue
@@ -375,10 +403,10 @@ def check_room(ctx) -> None:
     ar = prog.func("cobra.flux_analysis.room", "add_room")
     problems: Dict[str, str] = {}
     n = 0
-    delta, eps = 0.03125, 0.0078125
-    for linear in (False, True):
-        for given in (True, False):
-            what = f"room(linear={linear}, solution={'given' if given else 'None'})"
+    for linear, given, delta, eps in [(lin, giv, 0.03125, 0.0078125) for lin in (False, True) for giv in (True, False)] + [(False, True, 0.0, 0.0), (False, True, 0.0, 0.0078125), (False, True, 0.03125, 0.0)]:
+        # (an exact band - delta = 0 and / or epsilon = 0 - is a tolerance like any other)
+        if True:
+            what = f"room(linear={linear}, solution={'given' if given else 'None'}, delta={delta:g}, epsilon={eps:g})"
             try:
                 model, it, ref, sol = _run(what, lambda: _secondary(ctx, "room", entry, given, {"linear": linear, "delta": delta, "epsilon": eps}))
             except EvalRaise as exc:
